@@ -15,7 +15,7 @@ from vlib.runner import Result, hyp_settings
 ID = "C18"
 LEVEL = "exploration"
 RULE = (
-    "(device) Hypothesis draws a display (cols 1-40, rows 1-4, I2C or parallel), 1-2 animations on distinct rows (style in scroll/blink/typewriter/bounce, loop "
+    "(device) Hypothesis draws a display (cols 1-40, rows 1-4, I2C or parallel), 1-3 animations on distinct rows, each started at top level or inside the taken arm of an if/else whose other arm names a different animation for the same row (style in scroll/blink/typewriter/bounce, loop "
     "on/off, speed_ms in {0,1,50,200,1000}, text empty/shorter/equal/longer than the row) started in the prologue, a main loop with a marker and optional sleep, and "
     "a tape of per-pass clock increments (0, 1, speed-1, speed, speed+1, 5*speed; first pass at millis()==0 or later); N = 3*bound+6 passes (bound = 2*(len+cols)+4). "
     "Invariants on the trace: no delay in setup() caused by animate; in every pass all display traffic precedes the first user statement with no delay; no write "
@@ -44,8 +44,11 @@ def device_case(draw):
     decl = f"lcd = LCD(i2c_addr=0x27, cols={cols}, rows={rows})" if i2c else f"lcd = LCD(rs=22, en=23, d4=24, d5=25, d6=26, d7=27, cols={cols}, rows={rows})"
     lines = [HEAD.rstrip("\n"), decl]
     anims = []
-    used_rows = draw(st.lists(st.integers(0, rows - 1), min_size=1, max_size=min(2, rows), unique=True))
-    for r in used_rows:
+    used_rows = draw(st.lists(st.integers(0, rows - 1), min_size=1, max_size=min(3, rows), unique=True))
+    mode = draw(st.integers(1, 2))
+    lines.append(f"mode = {mode}")
+
+    def one(r):
         style = draw(st.sampled_from(STYLES))
         loop = draw(st.booleans())
         speed = draw(st.sampled_from(SPEEDS))
@@ -53,11 +56,26 @@ def device_case(draw):
         n = {"empty": 0, "short": max(0, cols - draw(st.integers(1, max(1, cols)))), "equal": cols, "long": cols + draw(st.integers(1, 6))}[cls]
         text = draw(st.text(alphabet="abcdefghijklmnopqrstuvwxyz0123456789", min_size=n, max_size=n))
         form = draw(st.sampled_from(["kw", "pos"]))
-        if form == "kw":
-            lines.append(f"lcd.animate({style!r}, {r}, {text!r}, speed_ms={speed}, loop={loop})")
+        call = f"lcd.animate({style!r}, {r}, {text!r}, speed_ms={speed}, loop={loop})" if form == "kw" else f"lcd.animate({style!r}, {r}, {text!r}, {speed}, loop={loop})"
+        return call, {"style": style, "row": r, "text": text, "speed": speed, "loop": loop}
+
+    branched = 0
+    for r in used_rows:
+        call, a = one(r)
+        # started at top level, or in the arm of an if/else that the run takes (the other arm names another animation for the same row, never started)
+        place = draw(st.sampled_from(["top", "top", "if", "else"]))
+        if place == "top":
+            lines.append(call)
         else:
-            lines.append(f"lcd.animate({style!r}, {r}, {text!r}, {speed}, loop={loop})")
-        anims.append({"style": style, "row": r, "text": text, "speed": speed, "loop": loop})
+            other, _ = one(r)
+            taken_first = (mode == 1)
+            first, second = (call, other) if (place == "if") == taken_first else (other, call)
+            if place == "if":
+                lines += [f"if mode == {mode}:", "    " + call, "else:", "    " + other]
+            else:
+                lines += [f"if mode == {3 - mode}:", "    " + other, "else:", "    " + call]
+            branched += 1
+        anims.append(a)
     user_sleep = draw(st.sampled_from([None, None, 0, 3]))
     lines += ["while True:", "    mon.write('@L')"] + ([f"    sleep({user_sleep})"] if user_sleep is not None else [])
     b = max(bound(len(a["text"]), cols) for a in anims)
@@ -69,7 +87,7 @@ def device_case(draw):
         jitter[0] = 0
     t0 = draw(st.sampled_from([0, 0, 7000]))
     return {"src": "\n".join(lines) + "\n", "cols": cols, "rows": rows, "anims": anims, "n": n, "jitter": jitter, "t0_us": t0, "bound": b,
-            "nt": any(len(a["text"]) > cols for a in anims) or any(a["speed"] > 0 for a in anims) or len(anims) > 1}
+            "nt": any(len(a["text"]) > cols for a in anims) or any(a["speed"] > 0 for a in anims) or len(anims) > 1, "branched": branched}
 
 
 def eval_device(case):
